@@ -19,7 +19,8 @@ Sample values are an arbitrary type `σ` (the readers only move them around), ex
 scaling which is computed in exact rationals. Time steps and orientations are rationals (every double
 is one). Import-free and computable.
 -/
-namespace HV
+namespace HV.Rd
+open HV
 variable {σ τ φ κ δ ρ : Type}
 
 /-- the Python exception classes that the readers can raise, as an enum shared with the harness -/
@@ -469,4 +470,4 @@ def regexSources : List (String × String × String) :=
    ("peer_npts", "NPTS=\\s*(\\d+),", ""), ("peer_dt", "DT=\\s*(\\d*\\.\\d+)\\s", ""),
    ("peer_sample", "(-?\\d*\\.\\d+[eE][+-]?\\d*)", "")]
 
-end HV
+end HV.Rd
